@@ -20,6 +20,12 @@ import z3
 
 W = 64
 INTERNAL = 0x100000
+# README writes the block instructions as `(m++) <- (n++)` with 8-bit internal cell numbers m, n and is
+# silent about a run that passes (FF).  Reading taken: the cursor is an 8-bit quantity and counts modulo
+# 256 (the only reading under which every element is an internal-memory cell, which is what the rendered
+# operand denotes).  VERIF_IMEM_WRAP=0 restores the earlier treatment (such runs excluded as undefined).
+import os as _os
+IMEM_CURSOR_WRAPS = _os.environ.get("VERIF_IMEM_WRAP", "1") == "1"
 M8, M16, M20, M24 = 0xFF, 0xFFFF, 0xFFFFF, 0xFFFFFF
 BP, PX, PY = 0xEC, 0xED, 0xEE
 IMR, ISR, UCR, USR, SCR, LCC, SSR = 0xFB, 0xFC, 0xF7, 0xF8, 0xFD, 0xFE, 0xFF
@@ -840,9 +846,13 @@ def _block(mn, ops, st, n):
         if kind == "i":
             # README does not say whether an internal cursor wraps from (FF) to (00): the
             # cursor must stay inside the internal space for the result to be defined
-            cur[1] = a + delta
-            if not last:
-                st.need(z3.And(cur[1] >= INTERNAL, cur[1] <= INTERNAL + 0xFF))
+            if IMEM_CURSOR_WRAPS:
+                # (m++) on an 8-bit internal cell number: the cursor counts modulo 256
+                cur[1] = bv(INTERNAL) + ((a - INTERNAL + delta) & 0xFF)
+            else:
+                cur[1] = a + delta
+                if not last:
+                    st.need(z3.And(cur[1] >= INTERNAL, cur[1] <= INTERNAL + 0xFF))
         else:
             cur[1] = a + delta
             st.need(z3.And(cur[1] >= 0, cur[1] <= M20 + 1))
